@@ -61,4 +61,17 @@ Definition diagram_rule (g : graph) (only : bool) (has_file : bool) (base : opti
        | Some d => diagram_apply g only base d
        end.
 
+(* the DiagramRule builder: from_file / with_base_module / base_module_included_in_module_names, in any order and number *)
+Inductive dcall := DFromFile | DWithBase (p : name) | DBaseIncluded.
+Definition dstep (st : bool * option name) (c : dcall) : bool * option name :=
+  match c with
+  | DFromFile => (true, snd st)
+  | DWithBase p => (fst st, Some p)
+  | DBaseIncluded => st
+  end.
+(* [parsed]: what the parser makes of the file given last (None: PumlParsingError, e.g. no start/end tags - Puml.parse_text) *)
+Definition diagram_history (g : graph) (only : bool) (calls : list dcall) (parsed : option pdeps) : @outcome comp :=
+  let st := fold_left dstep calls (false, None) in
+  diagram_rule g only (fst st) (snd st) parsed.
+
 End Diagram.
